@@ -380,15 +380,77 @@ def execute(reg, c):
     return "ok", ""
 
 
-def fresh():
-    """fresh process-wide state for a new behaviour"""
+ACTIVE_LISTENERS = []
+
+
+def fresh(listeners=""):
+    """fresh process-wide state for a new behaviour.  listeners: "" (none), "A" (the mirror),
+    "AB" / "BA" (mirror and a passive listener registered in that order)"""
     sdn.namespace_manager.default = "DEFAULT"
-    return Registry()
+    while ACTIVE_LISTENERS:
+        ACTIVE_LISTENERS.pop().deregister_all_listeners()
+    reg = Registry()
+    reg.mirror = None
+    if listeners:
+        import mirror
+        for ch in listeners:
+            if ch == "A":
+                reg.mirror = mirror.MirrorListener()
+                ACTIVE_LISTENERS.append(reg.mirror)
+            else:
+                ACTIVE_LISTENERS.append(mirror.PassiveListener())
+    return reg
 
 
-def build(calls):
+def project_mirror(reg):
+    """the mirror listener's copy, in registry ids (objects the registry does not know are -1)"""
+    ml = reg.mirror
+
+    def rid(objid):
+        ent = reg.ids.get(objid)
+        return ent[1] if ent else -1
+
+    def rid_kind(obj, kind):
+        if obj is None:
+            return 0
+        ent = reg.ids.get(id(obj))
+        return ent[1] if ent and ent[0] == kind else -1
+
+    m = {"rel": {}, "conn": []}
+    for rn, pairs in ml.rel.items():
+        out = []
+        for p, x in pairs:
+            a, b = rid(p), rid(x)
+            if a == -1 and b == -1:
+                continue
+            out.append([a, b])
+        m["rel"][rn] = sorted(out)
+    conn = []
+    for w, p in ml.conn:
+        a = rid(w)
+        if a == -1:
+            continue
+        conn.append({"w": a, "r": _pinref(reg, ml.objs[p])})
+    m["conn"] = sorted(conn, key=lambda e: json.dumps(e, sort_keys=True))
+    m["ref"] = [rid_kind(ml.ref.get(id(i), None), "D") for i in reg.objs["I"]]
+    m["top"] = [rid_kind(ml.top.get(id(n), None), "I") for n in reg.objs["N"]]
+
+    def drec(e):
+        d = ml.data.get(id(e), {})
+        other = {k: d[k] for k in d if k not in MODELLED_KEYS}
+        rec = {"name": _val(d[".NAME"]) if ".NAME" in d else "",
+               "eid": _val(d["EDIF.identifier"]) if "EDIF.identifier" in d else "",
+               "ns": _val(d[".NS"]) if ".NS" in d else "", "k": _val(d["k"]) if "k" in d else ""}
+        if other:
+            rec["other"] = json.dumps(other, sort_keys=True, default=repr)
+        return rec
+    m["data"] = {k: [drec(e) for e in reg.objs[k]] for k in ("N", "L", "D", "P", "C", "I")}
+    return m
+
+
+def build(calls, listeners=""):
     """replay a call history on fresh objects; returns the registry"""
-    reg = fresh()
+    reg = fresh(listeners)
     for c in calls:
         execute(reg, c)
         # creating calls may create more than they return (pins of a new port, ...): adopt them
